@@ -1,12 +1,14 @@
 #!/bin/sh
 # usage: tools/try_patch.sh <patch.diff> <check args...>   e.g.  tools/try_patch.sh seeded/x/patch.diff C16 quick
-# Applies a seeded change to /repo, runs one check, and always undoes the change. The evidence file of
-# the check (which describes runs on /repo itself, unchanged) is put back afterwards.
+# Applies a seeded change to the repository ($VERIF_REPO, default /repo), runs one check, and always undoes the
+# change. The evidence file of the check (which describes runs on the unchanged tree) is put back afterwards.
+V=$(cd "$(dirname "$0")/.." && pwd)
+R="${VERIF_REPO:-/repo}"
 p="$1"; shift
 id="$1"
 bak=$(mktemp)
-[ -f /verif/evidence/$id.json ] && cp /verif/evidence/$id.json "$bak"
-git -C /repo apply "$p" || exit 2
-trap 'git -C /repo checkout -- . ; git -C /repo clean -fdq; [ -s "$bak" ] && cp "$bak" /verif/evidence/$id.json; rm -f "$bak"; /verif/tools/regen.sh >/dev/null 2>&1' EXIT
-cd /verif && ./check "$@"
+[ -f $V/evidence/$id.json ] && cp $V/evidence/$id.json "$bak"
+git -C "$R" apply "$p" || exit 2
+trap 'git -C "$R" checkout -- . ; git -C "$R" clean -fdq; [ -s "$bak" ] && cp "$bak" $V/evidence/$id.json; rm -f "$bak"; $V/tools/regen.sh >/dev/null 2>&1' EXIT
+cd $V && ./check "$@"
 echo "exit=$?"
